@@ -72,10 +72,42 @@ func evalIdxCond(cond ssa.Value, l *Loop, idxVal int64, atLeast bool) (val bool,
 		k = cst
 		op = swapOp(op)
 	}
-	if k == nil || k.Value == nil || k.Value.Kind() != constant.Int {
-		return false, false
+	var kv int64
+	if k == nil {
+		// an index that does not start at 0 (`for j := from; …`): a comparison with the very value it starts at is a
+		// comparison of the relative position with 0
+		rel := func(idx, other ssa.Value) bool {
+			if !idxFromLoop(idx, l) {
+				return false
+			}
+			init := loopIndexInit(idx, l)
+			return init != nil && sameValue(init, other)
+		}
+		switch {
+		case rel(bo.X, bo.Y):
+		case rel(bo.Y, bo.X):
+			op = swapOp(op)
+		default:
+			return false, false
+		}
+		kv = 0
+	} else {
+		if k.Value == nil || k.Value.Kind() != constant.Int {
+			return false, false
+		}
+		kv = k.Int64()
+		// a comparison with a constant says something about the relative position only if the index starts at 0
+		idx := bo.X
+		if _, isC := bo.X.(*ssa.Const); isC {
+			idx = bo.Y
+		}
+		if init := loopIndexInit(idx, l); init != nil {
+			// (a range loop's hidden index starts at the constant -1 and is incremented before use)
+			if _, isC := init.(*ssa.Const); !isC {
+				return false, false
+			}
+		}
 	}
-	kv := k.Int64()
 	if !atLeast {
 		switch op {
 		case token.EQL:
@@ -219,6 +251,18 @@ func c18Consumer(c *Ctx) {
 					}
 				}
 				continue
+			}
+			// msgs[j] in a loop `for j := i; …` whose index starts at the index of an enclosing loop
+			if u, isU := strip(e).(*ssa.UnOp); isU {
+				if ia, isIA := u.X.(*ssa.IndexAddr); isIA && l != nil {
+					if init := loopIndexInit(ia.Index, l); init != nil {
+						for _, lo := range fi.Loops {
+							if lo != l && idxFromLoop(init, lo) && lo.Head.Dominates(l.Head) {
+								return elemInfo{loop: l, outer: lo, val: e}, true
+							}
+						}
+					}
+				}
 			}
 			if s2, isS := sl.(*ssa.Slice); isS && s2.Low != nil {
 				for _, lo := range fi.Loops {
@@ -518,4 +562,23 @@ func c18ResetOnHandBack(c *Ctx) {
 			c.Check(len(bad) == 0, rule, fn, "reset-before-send:"+t.ch, snd, "retries and flags are reset on the message before it is handed back", "a message can be handed back on "+t.ch+" without "+strings.Join(bad, "/")+" having been reset on the message object itself (a reset applied to a copy of the struct does nothing): if the application submits the message again the dispatcher takes it for an internal retry — interceptors are skipped, it is not counted in flight (negative WaitGroup later) and not partitioned", wpath)
 		}
 	}
+}
+
+// loopIndexInit: the value the index φ of loop l (idx itself, or the φ idx is derived from) has on entry to the loop.
+func loopIndexInit(idx ssa.Value, l *Loop) ssa.Value {
+	ph, ok := idx.(*ssa.Phi)
+	if !ok {
+		if bo, isB := idx.(*ssa.BinOp); isB {
+			ph, ok = bo.X.(*ssa.Phi)
+		}
+	}
+	if !ok || ph == nil || ph.Block() != l.Head {
+		return nil
+	}
+	for i, pr := range ph.Block().Preds {
+		if !l.Blocks[pr] && i < len(ph.Edges) {
+			return ph.Edges[i]
+		}
+	}
+	return nil
 }
